@@ -482,3 +482,9 @@ def make_yukawa_ob(yt):
 
 for _yt in YTYPES:
     make_yukawa_ob(_yt)
+
+
+def fidelity(tier, seed):
+    """A-FRONT guard: THDM a_mu functions and getters, interpreter (float mode) vs compiled real code on real models"""
+    from gm2v import fidelity as _fid
+    return _fid.thdm_model_guard(seed=seed)
